@@ -106,6 +106,9 @@ class ExceptIf(ConclusionSelector):
                 required_vars.update(conc._unique_variables_)
         elif child is self.right:
             if when_true:
+                # the refinement is asked once per row of the refined branch, and whether it fires decides for THAT row:
+                # a row of it is not a repeat of the one it gave for another assignment of the refined branch's variables.
+                required_vars.update(self.left._unique_variables_)
                 for conc in self.right._conclusion_:
                     required_vars.update(conc._unique_variables_)
             if when_false and not self.left._is_false_:
